@@ -4,9 +4,10 @@
 import json, os, re, shutil, sys
 
 ROOT = os.path.dirname(os.path.dirname(os.path.abspath(__file__)))
-ids = sys.argv[1:] or sorted(d for d in os.listdir("/tmp/wt") if re.match(r"C\d\d$", d))
-for pid in ids:
-    outd = "/tmp/wt/%s/_out" % pid
+ids = sys.argv[1:] or sorted(d for d in os.listdir("/tmp/wt") if re.match(r"C\d\db?$", d))
+for wtname in ids:
+    pid = wtname.rstrip("b")
+    outd = "/tmp/wt/%s/_out" % wtname
     if not os.path.isdir(outd):
         continue
     for f in sorted(os.listdir(outd)):
@@ -22,7 +23,7 @@ for pid in ids:
             meta = json.load(open(os.path.join(outd, "meta%s.json" % i)))
         except Exception:
             meta = {}
-        dst = os.path.join(ROOT, "seeded", "%s-%s" % (pid, i))
+        dst = os.path.join(ROOT, "seeded", "%s-%s" % (wtname, i))
         os.makedirs(dst, exist_ok=True)
         shutil.copy(os.path.join(outd, "change%s.diff" % i), os.path.join(dst, "patch.diff"))
         shutil.copy(os.path.join(outd, "demo%s.rs" % i), os.path.join(dst, "demo.rs"))
